@@ -411,7 +411,7 @@ pub fn def() -> CheckDef {
             // first clause (a record only moves forward in the precedence order) as a monitor on every call of the
             // shared histories, chaos pool and exhaustive batches: all input kinds, not just update streams
             Batch { scenario: &crate::checks::histchecks::H01, quick: 40_000, thorough: 3_000_000 },
-            Batch { scenario: crate::checks::histchecks::chaos_for("C01"), quick: 2_000, thorough: 150_000 },
+            Batch { scenario: crate::checks::histchecks::chaos_for("C01"), quick: 6_000, thorough: 150_000 },
             Batch { scenario: crate::checks::histchecks::exhaustive_for("C01"), quick: 0, thorough: 0 },
         ],
         extra: None,
